@@ -560,12 +560,15 @@ Definition qstep (s : qsys) (t : nat) (ch : nat) : option (qsys * label) :=
   end.
 
 (* ================================================================== *)
-(* (e) double buffer (blocking mode)                                   *)
-(*   write: lock; p = back; while (p->cnt == capacity) { wait(cv_not_full); p = back; }
+(* (e) double buffer (blocking and non-blocking mode)                   *)
+(*   write: lock; p = back;
+            while (p->cnt == capacity) { if (non_blocking) { unlock; return MUGGLE_ERR_FULL; }
+                                         wait(cv_not_full); p = back; }
             p->datas[p->cnt++] = d; notify_one(cv_not_empty); unlock
      read:  lock; while (back->cnt == 0) wait(cv_not_empty);
             front->cnt = 0; swap(front, back); notify_one(cv_not_full); unlock; return front
-     The driver's reader reads until it has received <need> items.                           *)
+     The driver's reader reads until it has received <need> items; a writer that is refused
+     (non-blocking mode, MUGGLE_ERR_FULL) notes "full", yields and retries the same item.     *)
 
 Definition dc_m : nat := 0%nat.
 Definition dc_ne : nat := 1%nat.
@@ -574,29 +577,31 @@ Definition dc_nf : nat := 2%nat.
 Inductive dpc :=
   | DRSeg | DRLock | DRChk | DRWait | DRAsleep | DRWoken | DRSig | DRSeg2 | DRUnlock
   | DWSeg | DWLock | DWChk | DWWait | DWAsleep | DWWoken | DWSig | DWSeg2 | DWUnlock
+  | DWUnlockF | DWSegF | DWYield      (* non-blocking mode: the FULL return path and the client's retry *)
   | DFin | DDone.
 Record dthread := { d_pc : dpc; d_k : nat; d_last : Z; d_pend : notes }.
   (* reader: d_k = items still needed, d_last = size of the buffer obtained by the read in progress *)
 Record dsys := {
   d_n : nat; d_cap : Z;
+  d_nb : bool;                (* buf->non_blocking *)
   d_back : Z;                 (* back->cnt; after a read the new back buffer is empty *)
   d_m : option nat;
   d_thr : nat -> dthread;
 }.
-Definition dinit (n : nat) (cap : Z) (need : nat) (wk : nat -> nat) : dsys :=
-  {| d_n := n; d_cap := cap; d_back := 0; d_m := None;
+Definition dinit (n : nat) (cap : Z) (nb : bool) (need : nat) (wk : nat -> nat) : dsys :=
+  {| d_n := n; d_cap := cap; d_nb := nb; d_back := 0; d_m := None;
      d_thr := fun t => match t with
                        | O => {| d_pc := DRSeg; d_k := need; d_last := 0; d_pend := [] |}
                        | S w => {| d_pc := DWSeg; d_k := wk w; d_last := 0; d_pend := [] |}
                        end |}.
 Definition dset (s : dsys) (t : nat) (x : dthread) : dsys :=
-  {| d_n := d_n s; d_cap := d_cap s; d_back := d_back s; d_m := d_m s; d_thr := upd (d_thr s) t x |}.
+  {| d_n := d_n s; d_cap := d_cap s; d_nb := d_nb s; d_back := d_back s; d_m := d_m s; d_thr := upd (d_thr s) t x |}.
 Definition dpcset (x : dthread) (p : dpc) : dthread :=
   {| d_pc := p; d_k := d_k x; d_last := d_last x; d_pend := [] |}.
 Definition dset_m (s : dsys) (o : option nat) : dsys :=
-  {| d_n := d_n s; d_cap := d_cap s; d_back := d_back s; d_m := o; d_thr := d_thr s |}.
+  {| d_n := d_n s; d_cap := d_cap s; d_nb := d_nb s; d_back := d_back s; d_m := o; d_thr := d_thr s |}.
 Definition dset_back (s : dsys) (v : Z) : dsys :=
-  {| d_n := d_n s; d_cap := d_cap s; d_back := v; d_m := d_m s; d_thr := d_thr s |}.
+  {| d_n := d_n s; d_cap := d_cap s; d_nb := d_nb s; d_back := v; d_m := d_m s; d_thr := d_thr s |}.
 Definition d_wasleep (s : dsys) (u : nat) : bool :=
   match d_pc (d_thr s u) with DWAsleep => true | _ => false end.
 Definition d_rasleep (s : dsys) (u : nat) : bool :=
@@ -641,7 +646,7 @@ Definition dstep (s : dsys) (t : nat) (ch : nat) : option (dsys * label) :=
     | None => Some (dset (dset_m s (Some t)) t (dpcset x DWChk), ev OMlock dc_m MoNone 0 0 0)
     end
   | DWChk =>
-    if d_back s =? d_cap s then Some (go DWWait, LPlain [])
+    if d_back s =? d_cap s then Some (go (if d_nb s then DWUnlockF else DWWait), LPlain [])
     else Some (dset (dset_back s (d_back s + 1)) t (dpcset x DWSig), LPlain [])
   | DWWait => Some (dset (dset_m s None) t (dpcset x DWAsleep), ev OCvwait dc_nf MoNone 0 0 0)
   | DWAsleep => if Nat.eqb ch 1 then Some (go DWWoken, ev OCvwoke dc_nf MoNone 1 0 0) else None
@@ -659,6 +664,10 @@ Definition dstep (s : dsys) (t : nat) (ch : nat) : option (dsys * label) :=
   | DWUnlock =>
     Some (dset (dset_m s None) t {| d_pc := DWSeg; d_k := pred (d_k x); d_last := d_last x; d_pend := [(n_wrote, 0)] |},
           ev OMunlock dc_m MoNone 0 0 0)
+  (* non-blocking mode, back buffer full: unlock, return MUGGLE_ERR_FULL; the client retries *)
+  | DWUnlockF => Some (dset (dset_m s None) t (dpcset x DWSegF), ev OMunlock dc_m MoNone 0 0 0)
+  | DWSegF => Some (go DWYield, LPlain [(n_full, 0)])
+  | DWYield => Some (go DWSeg, ev OYield 0%nat MoNone 0 0 0)
   | DFin => Some (go DDone, LExit)
   | DDone => None
   end.
